@@ -14,6 +14,7 @@ gen_project(rng, dir, features=None) -> spec
         spec['targets']    [{'var','name','kind','dir','project','outputs','bbd'}]  in creation order
         spec['tests']      [{'name','exe': var,'depends':[var…],'benchmark':bool}]
         spec['collision']  None | kind
+        spec['shared']     [{'pkind', 'project', 'dir', 'uses': [[consumer kind, dir], …]}] produced objects handed to >= 2 consumers
         spec['failing_subproject']  None | {'call', 'without', 'root_without': root meson.build text without the call, …}:
                            an optional subproject `optsp` that fails part-way; the project must configure exactly as
                            the same project with `root_without` as its root meson.build
@@ -62,6 +63,7 @@ DEFAULT_FEATURES: T.Dict[str, T.Any] = {
     'extraction': 0.45,    # probability that a target consumes extracted objects of an earlier one
     'pch': 0.15,
     'failing_subproject': 0.25,  # probability of an OPTIONAL subproject that fails part-way (state must not leak)
+    'sharing': 0.75,       # probability (per project) of produced objects shared by 2-3 consumers of different kinds
     'prereq_cases': 0.7,   # probability (per project part) of the test/benchmark prerequisite cases with private helpers
     'pipe_names': False,   # names containing `|` (ninja cannot express them; must be rejected at configure time)
 }
@@ -116,6 +118,7 @@ class _Gen:
         self.nfile = 0
         self.layout_sensitive = False
         self.overrides: T.List[dict] = []
+        self.shared: T.List[dict] = []
 
     # ---- helpers
     def q(self, s: str) -> str:
@@ -577,6 +580,124 @@ class _Gen:
             self.tests.append({'name': tname, 'exe': o['var'], 'depends': [], 'benchmark': bench, 'project': project,
                                'way': 'override-exe-elsewhere'})
 
+    # ---- sharing: one produced object handed to several consumers of different kinds -------------------------------
+    # producer kind -> consumer kinds it may be handed to (meson's own typing of the keyword arguments)
+    SHARE = {
+        'genlist':         ['executable', 'static_library', 'shared_library', 'both_libraries', 'ct-input', 'process-input'],
+        'chained-genlist': ['executable', 'static_library', 'shared_library', 'both_libraries', 'ct-input', 'process-input'],
+        'custom_target':   ['executable', 'static_library', 'shared_library', 'both_libraries', 'ct-input', 'ct-depends',
+                            'process-input', 'run_target', 'test-args', 'alias_target'],
+        'ct-index':        ['executable', 'static_library', 'shared_library', 'both_libraries', 'ct-input', 'process-input',
+                            'test-args'],
+        'vcs_tag':         ['executable', 'static_library', 'shared_library', 'both_libraries', 'ct-input', 'ct-depends',
+                            'run_target', 'test-args'],
+        'configure_file':  ['executable', 'static_library', 'shared_library', 'both_libraries', 'ct-input', 'process-input',
+                            'install_data', 'test-args'],
+        'extract':         ['executable-objects', 'static_library-objects', 'shared_library-objects'],
+        'dep-sources':     ['executable-deps', 'static_library-deps', 'shared_library-deps', 'both_libraries-deps'],
+    }
+
+    def share_generators(self, mdir, project):
+        """the generators the sharing cases use (once per project): .in -> .c, .c -> .post.c, any -> <name>.x.c"""
+        key = ('sharegens', project)
+        if key not in self.used_names:
+            self.used_names.add(key)
+            root = self.proj_root(project)
+            # emitted where first needed; meson variables are project-global
+            self.emit(mdir, "shg1 = generator(gen, output: '@BASENAME@.c', arguments: ['@INPUT@', '@OUTPUT@'])")
+            self.emit(mdir, "shg2 = generator(gen, output: '@BASENAME@.post.c', arguments: ['@INPUT@', '@OUTPUT@'])")
+            # for consumers that process a shared object again: output names distinct for every input file name
+            self.emit(mdir, "shg3 = generator(gen, output: '@PLAINNAME@.x.c', arguments: ['@INPUT@', '@OUTPUT@'])")
+
+    def mk_shared_producer(self, mdir, project, pkind=None):
+        rng = self.rng
+        self.cur = mdir
+        self.share_generators(mdir, project)
+        pkind = pkind or rng.choice(sorted(self.SHARE))
+        self.nvar += 1
+        n = self.nvar
+        v = f'shp{n}'
+        if pkind == 'genlist':
+            inp = self.src(mdir, stem=f'shin{n}', ext='.in')
+            self.emit(mdir, f"{v} = shg1.process({self.q(inp)})")
+        elif pkind == 'chained-genlist':
+            inp = self.src(mdir, stem=f'shin{n}', ext='.in')
+            # the inner list is private to this chain (the same inner list twice in ONE target is rejected by meson)
+            self.emit(mdir, f"{v} = shg2.process(shg1.process({self.q(inp)}))")
+        elif pkind in ('custom_target', 'ct-index'):
+            self.emit(mdir, f"{v}_ct = custom_target('shp ct{n}', output: ['shp{n}.c', 'shp{n}.h'], command: [gen, '@OUTPUT@'])")
+            self.emit(mdir, f"{v} = {v}_ct" + (f"[{rng.choice([0, 1])}]" if pkind == 'ct-index' else ''))
+        elif pkind == 'vcs_tag':
+            inp = self.src(mdir, stem=f'shvcs{n}', ext='.h.in', body='#define V "@VCS_TAG@"\n')
+            self.emit(mdir, f"{v} = vcs_tag(input: {self.q(inp)}, output: 'shvcs{n}.h', fallback: '0')")
+        elif pkind == 'configure_file':
+            self.emit(mdir, f"{v} = configure_file(output: 'shcf{n}.h', configuration: {{'S': {n}}})")
+        elif pkind == 'extract':
+            src = [self.src(mdir, stem=f'shx{n}_{i}') for i in range(self.nsrc())]
+            self.emit(mdir, f"{v}_lib = static_library('shp xlib{n}', {', '.join(self.q(x) for x in src)})")
+            self.emit(mdir, f"{v} = {v}_lib.extract_all_objects(recursive: {rng.choice(['true', 'false'])})")
+        elif pkind == 'dep-sources':
+            inp = self.src(mdir, stem=f'shin{n}', ext='.in')
+            self.emit(mdir, f"{v}_ct = custom_target('shp dct{n}', output: 'shpd{n}.h', command: [gen, '@OUTPUT@'])")
+            self.emit(mdir, f"{v} = declare_dependency(sources: [{v}_ct, shg1.process({self.q(inp)})])")
+        p = {'var': v, 'pkind': pkind, 'project': project, 'dir': mdir, 'uses': [], 'n': n}
+        self.shared.append(p)
+        return p
+
+    def mk_shared_consumer(self, mdir, project, prod=None):
+        rng = self.rng
+        self.cur = mdir
+        if prod is None:
+            cands = [p for p in self.shared if p['project'] == project and len(p['uses']) < 3]
+            if not cands:
+                return
+            prod = rng.choice(cands)
+        kinds = [k for k in self.SHARE[prod['pkind']] if (k, mdir) not in prod['uses']] or self.SHARE[prod['pkind']]
+        ckind = rng.choice(kinds)
+        self.nvar += 1
+        n = self.nvar
+        P = prod['var']
+        base = ckind.split('-')[0]
+        if base in ('executable', 'static_library', 'shared_library', 'both_libraries'):
+            body = 'int main(void) { return 0; }\n' if base == 'executable' else None
+            src = [self.src(mdir, stem=f'shc{n}_{i}', body=body if i == 0 else None) for i in range(self.nsrc())]
+            how = {'objects': f'objects: {P}', 'deps': f'dependencies: {P}'}.get(ckind.partition('-')[2], P)
+            name = f'shc {base[:3]}{n}'
+            v = f'shc{n}'
+            self.emit(mdir, f"{v} = {base}({self.q(name)}, {', '.join(self.q(x) for x in src)}, {how})")
+            if base != 'both_libraries':
+                self.add_target(var=v, name=name, kind=base, dir=mdir, project=project, outputs=None, bbd=True, srcs=src)
+        elif ckind == 'ct-input':
+            bbd = rng.random() < 0.6
+            self.emit(mdir, f"shc{n} = custom_target('shc ct{n}', input: {P}, output: 'shc{n}.dat', "
+                            f"command: [gen, '@INPUT@', '@OUTPUT@'], build_by_default: {'true' if bbd else 'false'})")
+        elif ckind == 'ct-depends':
+            self.emit(mdir, f"shc{n} = custom_target('shc ctd{n}', depends: {P}, output: 'shc{n}.dat', "
+                            f"command: [gen, '@OUTPUT@'], build_by_default: true)")
+        elif ckind == 'process-input':
+            self.share_generators(mdir, project)
+            src = self.src(mdir, stem=f'shc{n}', body='int main(void) { return 0; }\n')
+            self.emit(mdir, f"shc{n} = executable('shc chain{n}', {self.q(src)}, shg3.process({P}))")
+        elif ckind == 'run_target':
+            self.emit(mdir, f"run_target('shc-run{n}', command: [gen, '--run'], depends: {P})")
+        elif ckind == 'alias_target':
+            self.emit(mdir, f"alias_target('shc-alias{n}', {P})")
+        elif ckind == 'test-args':
+            src = self.src(mdir, stem=f'shc{n}', body='int main(void) { return 0; }\n')
+            self.emit(mdir, f"shc{n} = executable('shc texe{n}', {self.q(src)})")
+            self.emit(mdir, f"{rng.choice(['test', 'benchmark'])}('shc t{n}', shc{n}, args: [{P}])")
+        elif ckind == 'install_data':
+            self.emit(mdir, f"install_data({P}, install_dir: 'share/shc')")
+        prod['uses'].append((ckind, mdir))
+
+    def flush_shared(self, project) -> None:
+        """every shared producer of the project ends up with at least two consumers (the last ones in the project root)"""
+        root = self.proj_root(project)
+        for p in self.shared:
+            if p['project'] == project:
+                while len(p['uses']) < 2:
+                    self.mk_shared_consumer(root, project, p)
+
     def mk_alias(self, mdir, project):
         rng = self.rng
         self.cur = mdir
@@ -627,24 +748,38 @@ class _Gen:
                     subdirs.append(d)
         remaining = budget
         chunks = len(subdirs) * 2 + 1
+        sharing = rng.random() < self.f['sharing']
         for i in range(chunks):
             share = max(1, remaining // (chunks - i))
             remaining -= share
             if i % 2 == 0:
                 self.fill_dir(root, project, share)
+                here = root
             else:
                 d = subdirs[i // 2]
                 mdir = os.path.join(root, d)
                 self.emit(root, f'subdir({self.q(d)})')
                 self.lines.setdefault(mdir, [])
                 self.fill_dir(mdir, project, share)
+                here = mdir
                 if rng.random() < 0.3:
                     nd = rng.choice(['inner', 'x'])
                     self.emit(mdir, f'subdir({self.q(nd)})')
                     self.lines.setdefault(os.path.join(mdir, nd), [])
                     self.fill_dir(os.path.join(mdir, nd), project, 1 + share // 2)
+                    if rng.random() < 0.5:
+                        here = os.path.join(mdir, nd)
+            if sharing:
+                # consumers of what earlier parts produced (other directory), then maybe a new producer with a first consumer
+                for _ in range(rng.randint(0, 2)):
+                    self.mk_shared_consumer(here, project)
+                if rng.random() < 0.6 and len([p for p in self.shared if p['project'] == project]) < 3:
+                    p = self.mk_shared_producer(here, project)
+                    if rng.random() < 0.7:
+                        self.mk_shared_consumer(here, project, p)
         if rng.random() < self.f['tests']:
             self.mk_test(root, project)
+        self.flush_shared(project)
         if rng.random() < self.f['prereq_cases']:
             where = root
             if subdirs and rng.random() < 0.5:
@@ -829,7 +964,9 @@ def gen_project(rng, dir: str, features: T.Optional[dict] = None) -> dict:
             failing['call'] + '\n', (failing['without'] + '\n') if failing['without'] else '', 1)
     write_project(dir, g.files)
     return {'files': g.files, 'targets': g.targets, 'tests': g.tests, 'collision': f['collision'],
-            'layout_sensitive': g.layout_sensitive, 'subproject': sub, 'failing_subproject': failing}
+            'layout_sensitive': g.layout_sensitive, 'subproject': sub, 'failing_subproject': failing,
+            'shared': [{'pkind': p['pkind'], 'project': p['project'], 'dir': p['dir'],
+                        'uses': [list(u) for u in p['uses']]} for p in g.shared]}
 
 
 def write_project(dir: str, files: T.Dict[str, str]) -> None:
